@@ -1070,6 +1070,14 @@ def finalize_case(case, rng, nprng, P):
     for i, (shape, dt) in enumerate(zip(case.in_shapes, case.dtypes)):
         nonzero = case.op in ("true_divide", "floor_divide", "divide") and i == 1
         tensors.append(make_data(rng, shape, dt, nprng, distinct=bool(case.note.get("distinct")), nonzero=nonzero))
+    # exp-based operations: slices that lie far apart (hundreds of units) expose a stabilising shift that is not taken per slice
+    if case.op in ("logsumexp", "softmax", "log_softmax", "logaddexp") and rng.random() < 0.5:
+        for i, t in enumerate(tensors):
+            if t.dtype == np.float64 and t.ndim >= 1 and t.size > 1:
+                d = rng.randrange(t.ndim)
+                offs = np.array([rng.choice([-1500.0, -900.0, 0.0, 0.0, 900.0]) for _ in range(t.shape[d])])
+                tensors[i] = t + offs.reshape([-1 if k == d else 1 for k in range(t.ndim)])
+                case.feats.add("wide-range-data")
     # coordinates must be valid indices
     if case.family in ("get_at", "update"):
         _fill_coords(case, tensors, nprng)
